@@ -51,6 +51,11 @@ def run(ctx):
         i2 = teneva.ind_qtt_to_tt(B_arr, q)
         ok = np.array_equal(i1, idx) and np.array_equal(i2, idx) and np.asarray(i2).shape == (d,) and np.array_equal(B_arr, keepb)
         ctx.check(ok, 'ind_qtt_to_tt:single', 'ind_qtt_to_tt(%s, q=%d) = %s, expected %s' % (bits, q, np.asarray(i2).tolist(), idx), case=row)
+        # a batch with exactly one row stays a batch
+        b1 = np.asarray(teneva.ind_tt_to_qtt(np.array([idx], dtype=int), n))
+        i1b = np.asarray(teneva.ind_qtt_to_tt(np.array([bits], dtype=int), q))
+        ctx.check(b1.shape == (1, d * q) and i1b.shape == (1, d) and np.array_equal(b1[0], bits) and np.array_equal(i1b[0], idx), 'ind_maps:batch-of-one',
+                  'a batch with one row is not mapped to a batch with one row: shapes %s / %s' % (b1.shape, i1b.shape), case=row)
     if not table:
         raise tlc.TlcError('Qtt emitted no table')
     for (d, q), rows in table.items():
